@@ -28,6 +28,7 @@ from typing import Any, ForwardRef, Optional, Tuple, Union
 
 import typing_extensions
 
+from mashumaro.config import ADD_DIALECT_SUPPORT
 from mashumaro.core.const import PY_311_MIN
 from mashumaro.core.helpers import parse_timezone
 from mashumaro.core.meta.code.lines import CodeLines
@@ -720,7 +721,13 @@ def unpack_dataclass(spec: ValueSpec) -> Optional[Expression]:
             builder = spec.builder.__class__(
                 spec.origin_type,
                 type_args,
-                dialect=spec.builder.dialect,
+                dialect=(
+                    spec.builder.dialect
+                    if spec.builder.is_code_generation_option_enabled(
+                        ADD_DIALECT_SUPPORT, spec.origin_type
+                    )
+                    else None
+                ),
                 format_name=spec.builder.format_name,
                 default_dialect=spec.builder.default_dialect,
                 attrs=method_loc,
